@@ -6,7 +6,6 @@ import (
 	"sort"
 	"strings"
 
-
 	"utilcheck/flow"
 	"utilcheck/lang"
 	"utilcheck/pred"
@@ -18,7 +17,7 @@ func init() {
 		Title: "Date parser accepts only real calendar dates and keeps their components",
 		Run:   runC09,
 		Explanation: "C09.layout: the end-relative separator tests of date.DefaultParser are turned into a decision table over (byte at len-3 is '-', len-5, len-6, RuleDisableBasic); the accepted layout language L_acc = pattern ∩ (continue valuations) is computed on the DFA of the regexp constant and must satisfy L_acc ⊆ D{4,9}-DD-DD ∪ D{4,9}DDDD (no half-separated form) and Real ⊆ L_acc, Real being the checker's own real-calendar-date language (Gregorian leap rule over decimal digits, self-checked by counting 3 652 425 words of length 8). " +
-			"C09.valid / C09.comp: DefaultParser evaluated on a text of the extended layout with the match returning opaque captures, Atoi(capture k) an opaque number, New and Date()/Year()/Month()/Day() uninterpreted; the comparisons between a component of New(…) and a parsed number are the atoms of a decision tree: the value accepted is New(num 1, num 2, num 3), and it is accepted exactly on the valuation where year, month and day were each compared with the number of the matching capture and found equal — every other valuation ends in an error, and an accepting valuation that never asked about a component is a violation. "+
+			"C09.valid / C09.comp: DefaultParser evaluated on a text of the extended layout with the match returning opaque captures, Atoi(capture k) an opaque number, New and Date()/Year()/Month()/Day() uninterpreted; the comparisons between a component of New(…) and a parsed number are the atoms of a decision tree: the value accepted is New(num 1, num 2, num 3), and it is accepted exactly on the valuation where year, month and day were each compared with the number of the matching capture and found equal — every other valuation ends in an error, and an accepting valuation that never asked about a component is a violation. " +
 			"S-ERRZERO, S-WRAP, C18.L for package date.",
 		NotDecided:  []string{"time.Date∘Time.Date is the identity on real dates (trusted summary)", "a validity guard written as an explicit days-in-month table is outside the enumerated idioms and would be reported undecided"},
 		Assumptions: []string{"time.Date normalises out-of-range components and is the identity on in-range ones", "strconv.Atoi is exact on digit strings of at most 9 digits"},
@@ -380,10 +379,11 @@ func ruleC09Layout(e *Env) {
 // DefaultParser is evaluated on an input of the extended layout (YYYY-MM-DD, within the limit, flags clear) with
 // the match returning opaque captures, strconv.Atoi(capture k) an opaque number num(k), New and Date()/Year()/
 // Month()/Day() uninterpreted. The comparisons between a component of New(...) and a parsed number are the atoms:
-//   C09.comp  — the value accepted is New(num(1), num(2), num(3));
-//   C09.valid — it is accepted only on the valuation where year, month and day of the constructed date were each
-//               compared with the number parsed from the matching capture and found equal; every other valuation
-//               ends in an error. Helpers, early exits and the order of the three comparisons do not matter.
+//
+//	C09.comp  — the value accepted is New(num(1), num(2), num(3));
+//	C09.valid — it is accepted only on the valuation where year, month and day of the constructed date were each
+//	            compared with the number parsed from the matching capture and found equal; every other valuation
+//	            ends in an error. Helpers, early exits and the order of the three comparisons do not matter.
 func ruleC09Sem(e *Env) {
 	dp := e.Fn("C09.valid", "date", "DefaultParser")
 	if dp == nil {
